@@ -96,6 +96,84 @@ class Client:
         return trace_states
 
 
+class FlagTracking(Client):
+    """Wraps a client so that boolean / None *flags* held in locals are followed along each path: the state becomes
+    (inner state, frozenset of (frame depth, name, constant)); `flag = True`, `flag = None` record a value, any other store to the
+    name forgets it, and a test that is the flag itself (`if flag`, `if not flag`, `flag is None`, `flag is not None`) is decided
+    instead of being followed both ways.  Used where a refactoring may have turned `while .. else` / `break` structure into a flag."""
+
+    def __init__(self, inner: Client):
+        self.inner = inner
+        self.max_depth = getattr(inner, "max_depth", 8)
+
+    @staticmethod
+    def wrap(states):
+        return {(s, frozenset()) for s in states}
+
+    @staticmethod
+    def unwrap(ex: "Exits") -> "Exits":
+        return Exits({s for s, _ in ex.normal}, {s for s, _ in ex.brk}, {s for s, _ in ex.cont}, {s for s, _ in ex.ret},
+                     {(s[0], nm) for s, nm in ex.exc})
+
+    def should_inline(self, func, call, ctx):
+        return self.inner.should_inline(func, call, ctx)
+
+    def classify(self, call, ctx):
+        return self.inner.classify(call, ctx)
+
+    def handler_entry(self, handler, trace_states, ctx):
+        by_inner = {}
+        for s, fl in trace_states:
+            by_inner.setdefault(s, set()).add(fl)
+        keep = self.inner.handler_entry(handler, set(by_inner), ctx)
+        return {(s, fl) for s in keep for fl in by_inner.get(s, {frozenset()})}
+
+    def _value(self, e, flags, depth):
+        if isinstance(e, ast.Name):
+            for d, n, v in flags:
+                if d == depth and n == e.id:
+                    return ("known", v)
+        return None
+
+    def refine(self, test, state, ctx):
+        inner, flags = state
+        depth = len(ctx.interp.stack)
+        known = self._value(test, flags, depth)
+        if known is not None:
+            return (((inner, flags),), ()) if known[1] else ((), ((inner, flags),))
+        if isinstance(test, ast.Compare) and len(test.ops) == 1 and isinstance(test.ops[0], (ast.Is, ast.IsNot, ast.Eq, ast.NotEq)) \
+                and isinstance(test.comparators[0], ast.Constant) and test.comparators[0].value in (None, True, False):
+            known = self._value(test.left, flags, depth)
+            if known is not None:
+                same = known[1] is test.comparators[0].value
+                res = same if isinstance(test.ops[0], (ast.Is, ast.Eq)) else not same
+                return (((inner, flags),), ()) if res else ((), ((inner, flags),))
+        t, f = self.inner.refine(test, inner, ctx)
+        return tuple((x, flags) for x in t), tuple((x, flags) for x in f)
+
+    def event(self, kind, node, state, ctx):
+        inner, flags = state
+        if kind == "store" and isinstance(node, ast.Name):
+            depth = len(ctx.interp.stack)
+            flags = frozenset(x for x in flags if not (x[0] == depth and x[1] == node.id))
+            from .util import assigned_value
+            v = assigned_value(node)
+            if isinstance(v, ast.Constant) and (v.value is None or isinstance(v.value, bool)):
+                flags = flags | {(depth, node.id, v.value)}
+        elif kind == "loophead" and isinstance(node, (ast.For, ast.While)):
+            # flags assigned inside the loop may have either value at its head on a later round: forget those this round may
+            # re-assign differently only when the inner state does not tell the rounds apart (kept simple: keep the values, the
+            # engine iterates to a fixpoint over (inner, flags) pairs, which are finitely many)
+            pass
+        out = []
+        for r in self.inner.event(kind, node, inner, ctx):
+            if isinstance(r, RaiseExc):
+                out.append(RaiseExc((r.state, flags), r.name))
+            else:
+                out.append((r, flags))
+        return out
+
+
 class Interp:
     def __init__(self, prog: Program, client: Client):
         self.P, self.client = prog, client
